@@ -39,6 +39,27 @@ def items(tier, seed):
                 if ml and oo.get('unkn'):
                     continue
                 out.append({'h': 'off', 'name': name, 'S': S, 'opts': oo, 'ml': ml})
+    # phrase replacement (repl): rules derived from the skeleton's own plain text so that
+    # the last word gets a longer, the first an empty and a middle pair a shorter replacement
+    import re
+    from vf import yal
+    for i, (name, S, o) in enumerate(docs):
+        if tier == 'quick' and (i + seed) % 2:
+            continue
+        try:
+            (plain, _cm), _d, _e = yal.run_native(S, yal.mkopts(o))
+        except SystemExit:
+            continue
+        words = re.findall(r'[^\W\d_]+', plain)
+        if len(words) < 2:
+            continue
+        rules = [words[-1] + ' & ' + words[-1] + ' and a considerably longer replacement',
+                 words[0] + ' & ', '# comment']
+        if len(words) > 3:
+            rules.append(words[1] + ' ' + words[2] + ' & x')
+        oo = dict(o, repl=rules)
+        for ml in (False, True):
+            out.append({'h': 'off', 'name': 'repl:' + name, 'S': S, 'opts': oo, 'ml': ml})
     per = 2 if tier == 'quick' else 6
     for name, S, o in skeletons.malformed(seed, per):
         out.append({'h': 'off', 'name': name, 'S': S, 'opts': dict(o), 'ml': False})
